@@ -213,7 +213,9 @@ def check_real(rep, cfg: dict):
     if not np.allclose(np.asarray(js), np.asarray(s), rtol=1e-10, atol=1e-10):
         rep.violation({**key, "what": "sample_and_log_prob sample != sample"},
                       f"{desc}: sample_and_log_prob(key)[0] = {np.asarray(js)} differs from sample(key) = {np.asarray(s)}")
-    if not abs(float(jl) - lp_js) <= tol * (1 + abs(lp_js)):
+    # (the point was drawn from the distribution itself: its log-density is a finite number, and an infinite one on either
+    # side must not pass through a tolerance that is relative to it)
+    if not (np.isfinite(float(jl)) and np.isfinite(lp_js) and abs(float(jl) - lp_js) <= tol * (1 + abs(lp_js))):
         rep.violation({**key, "what": "sample_and_log_prob log-prob != log_prob(sample)"},
                       f"{desc}: sample_and_log_prob(key)[1] = {float(jl)}; log_prob of that sample = {lp_js}")
 
